@@ -71,3 +71,14 @@ Print Assumptions C02_stem_roundtrip.
 Print Assumptions C02_tblock_roundtrip.
 Print Assumptions C02_nblk.
 Print Assumptions C02_nonvacuous.
+
+(* ---- the same three access paths at the level of the STORED blocks ---------------
+   Store.v follows the pointer registers of lru_trie.dat and reassembles long stems
+   from tail blocks, as node.read / lru_node / windup_lru do on the file; on the
+   files of every reachable state it agrees with the tree model (StoreFacts*.v,
+   restated in Props/C02b.v), so the tree is a faithful abstraction of what is on
+   disk.  Pulled into this file so that the check of C02 re-checks them. *)
+From Traph Require Props.C02b.
+Print Assumptions Props.C02b.C02_block_lookup.
+Print Assumptions Props.C02b.C02_block_windup.
+Print Assumptions Props.C02b.C02_block_paths_agree.
